@@ -139,6 +139,54 @@ def run(chk, tier, seed):
                                   % (bytes(c["pat"]), sorted(selset), sorted(want)), dict(pat=c["pat"]))
             elif ev["valid"] and rc != 0 and want:
                 chk.violation("cli-info-fails", "dfs info %r failed (rc=%s) although files match" % (bytes(c["pat"]), rc), dict(pat=c["pat"]))
+        # ---- the catalogue walk behind type/list/dump: catalogues of one fragment (Acorn, an Opus volume) and two (Watford, with
+        # the first fragment holding 1, 3, half or all 31 of its entries), every file looked up by exact name, other case, drive
+        # prefix, and names that are not there
+        pool = [f for f in files if f[0] == 0]
+        pool = [f for f in pool if not any(g is not f and chr(g[1]).upper() == chr(f[1]).upper() and bytes(g[2]).upper() == bytes(f[2]).upper()
+                                           and pool.index(g) < pool.index(f) for g in pool)]
+        rnd.shuffle(pool)
+        layouts = [("DFS", None, 12), ("OPUS", None, 12), ("WDFS", 1, 9), ("WDFS", 3, 12), ("WDFS", 8, 16), ("WDFS", 31, 40), ("WDFS", 30, 40), ("WDFS", 0, 6)]
+        find_events = []
+        for li, (variant, split, nfiles) in enumerate(layouts):
+            fl = pool[li * 3: li * 3 + nfiles]
+            absent = [f for f in pool if f not in fl][:6]
+            ents = [mkdisc.entry(bytes(f[2]), f[1], False, 0, 0, 20 + k, 100 + 2 * (nfiles - k)) for k, f in enumerate(fl)]
+            kw = dict(nsectors=400, salt=60 + li, title=b"FIND") if variant != "OPUS" else dict(salt=60 + li, title=b"FIND")
+            if variant == "WDFS":
+                kw["split"] = split
+            d = discs.build(variant, ents, scratch, "find%d" % li, **kw)
+            cat = [[dict(dir=e["dir"], name=list(e["name"])) for e in ents]] if variant != "WDFS" else \
+                  [[dict(dir=e["dir"], name=list(e["name"])) for e in ents[:split]], [dict(dir=e["dir"], name=list(e["name"])) for e in ents[split:]]]
+            bodies = {(e["dir"], bytes(e["name"])): bytes(d.img[(d.origin + e["start"]) * 256:(d.origin + e["start"]) * 256 + e["length"]]) for e in ents}
+            queries = []
+            for f in fl:
+                nm = bytes(f[2])
+                queries.append((f[1], nm, ""))
+                queries.append((f[1], nm.swapcase(), ""))
+                queries.append((f[1], nm, ":0%s." % (d.drive[1:] if variant == "OPUS" else "")))
+            for f in absent:
+                queries.append((f[1], bytes(f[2]), ""))
+
+            def dof(q):
+                qdir, qname, pre = q
+                arg = (pre + "%c." % qdir + qname.decode("latin1"))
+                for cmd in (["type", "--binary"], ["dump"]):
+                    o = common.run([dfs, "--file", d.path, "--drive", d.drive] + cmd + [arg], timeout=30)
+                    if o.rc == 0 and (cmd[0] != "type" or any(o.out == b for b in bodies.values())):
+                        found = 1
+                    elif o.rc != 0 and b"not found" in o.err and o.ok_alphabet():
+                        found = 0
+                    else:
+                        found = 2
+                    yield dict(e="find", cat=cat, qdir=qdir, qname=list(qname), found=found, variant=variant, split=split if split is not None else -1,
+                               cmd=cmd[0], arg=arg, err=o.err.decode("latin1")[-120:])
+            for evs in common.pmap(lambda q: list(dof(q)), queries):
+                find_events += evs
+        for e in find_events:
+            chk.case(("find", e["variant"], e["split"], e["cmd"], e["arg"]), nontrivial=e["found"] == 1)
+        events += find_events
+        chk.extra["catalogue_walk_lookups"] = len(find_events)
         trace = os.path.join(scratch, "trace.ndjson")
         with open(trace, "w") as f:
             for e in events:
@@ -151,6 +199,16 @@ def run(chk, tier, seed):
                 raise common.MachineryError("TraceAfsp did not consume the whole trace:\n" + tr.output[-3000:])
             for ln in sorted(tr.verdicts[-1]["bad"]):
                 e = events[ln - 1]
+                if e["e"] == "find":
+                    where = "none"
+                    for fi, fr in enumerate(e["cat"]):
+                        if any(bytes(x["name"]).upper() == bytes(e["qname"]).upper() and chr(x["dir"]).upper() == chr(e["qdir"]).upper() for x in fr):
+                            where = "frag%d" % (fi + 1)
+                    chk.violation("find:%s:%s:%s" % (e["variant"], where, {0: "not-found", 1: "found", 2: "other"}[e["found"]]),
+                                  "%s %s on a %s disc (first fragment holds %s entries): %s although the entry is in %s; stderr %r"
+                                  % (e["cmd"], e["arg"], e["variant"], e["split"], {0: "reported not found", 1: "found", 2: "neither found nor 'not found'"}[e["found"]],
+                                     where, e["err"]), dict(event=e))
+                    continue
                 pat = bytes(e["pat"]).decode("latin1")
                 cls = "caret" if 94 in e["pat"] or e["cdir"] == 94 else "other"
                 chk.violation("%s:%s" % (e["e"], cls),
